@@ -39,7 +39,7 @@ PROPS = {
         partial=[],
     ),
     'C09': dict(
-        gen=['Lock'], props=['C09', 'MachineStructure'], model=['Prim/Lock', 'Machine/Run', 'Machine/Step', 'Machine/Kernel', 'Judge/Judges', 'Lemmas/KView', 'Lemmas/OView', 'Lemmas/CView', 'Lemmas/CStepFrames', 'Lemmas/CStep'], harness='c09',
+        gen=['Lock'], props=['C09', 'MachineStructure', 'MachineLock'], model=['Prim/Lock', 'Machine/Run', 'Machine/Step', 'Machine/Kernel', 'Judge/Judges', 'Lemmas/KView', 'Lemmas/OView', 'Lemmas/CView', 'Lemmas/CStepFrames', 'Lemmas/CStep'], harness='c09',
         trusted_base=KERNEL_TB + MACHINE_TB + [
             'shape templates (exact AST match, else broken obligation): Lock.available, __release__, __aenter__, __aexit__, '
             'Notification.__awake_next__/__subscribe__/__unsubscribe__',
@@ -288,14 +288,14 @@ MANIFEST_TEXT = {
         technique='Lean 4 invariants over all operation histories + translated decision logic + op-by-op differential replay',
         design_ref='6 (C19), 4.A, 4.B'),
     'C09': dict(
-        level='On the whole machine, for every program and every number of steps: lock_notification_forever (a lock keeps its own queue of waiters; Props/MachineStructure.lean). Lean 4 theorems over an open state-machine model of the lock, for every sequence of enter/resume/abort/exit actions by '
+        level='The lock code of the whole machine refines the open lock model, transition by transition, for every world (Props/MachineLock.lean: lockRelease_refines, acquireLock_refines = enter, lockResume_refines = resume, lockExit_refines = exit, lockAbort_refines = the release half of abort; abstraction absLock = owner, depth, queued activities oldest first). On the whole machine, for every program and every number of steps: lock_notification_forever (a lock keeps its own queue of waiters; Props/MachineStructure.lean). Lean 4 theorems over an open state-machine model of the lock, for every sequence of enter/resume/abort/exit actions by '
               'any number of activities (hence every schedule and a fault at every suspension point): step_inv/run_inv (6-clause '
               'invariant), mutex, reentrant_depth, always_released, designation_is_head + waiting_order_preserved (FIFO hand-off), '
               'available_iff; transitions tied to locks.py by regenerated templates. The executable whole-machine model reproduces '
               'the real usim to the turn on generated lock programs with injected cancels/until-deadlines/closes; the Lean judge '
               '(overlap, grant order, available, freedom at quiescence) is evaluated on every implementation trace.',
-        note='trusted: Lean kernel + standard axioms; templates; the abstraction of kernel deliveries into resume/abort actions (checked by '
-             'exact trace correspondence, not proved); CPython coroutine semantics',
+        note='trusted: Lean kernel + standard axioms; templates; that each piece of the machines lock code is the open models transition is proved (MachineLock); '
+             'that the kernel delivers exactly the enabled actions (a wake-up only to the designated waiter, exit only by the owner) is checked by exact trace correspondence, not proved; CPython coroutine semantics',
         technique='Lean 4 invariant proof over all action sequences + exact whole-machine differential traces + Lean trace judge',
         design_ref='6 (C09), 3, 4.B'),
     'C10': dict(
